@@ -118,6 +118,29 @@ def run(ctx):
                                        meta={'tag': 0x61, 'over': over, 'len': ln, 'cmd': cmd, 'kind': kind}))
             cases.append(vlib.Case('s%d' % k, files, argv + ['extract-files', '@out'], dest='out',
                                    meta={'tag': 0x61, 'over': over, 'len': ln, 'cmd': ['extract-files'], 'kind': kind}))
+    # truncated two-sided images (the file stops inside the last tracks): a file of side 1 that reaches into the missing part
+    # must not be completed with whatever else is at hand (side 0's sectors, stale buffers)
+    for (tracks, cutsec) in ((40, 792), (40, 785), (80, 1590), (40, 799)):
+        s0 = bytearray(bytes([0x61]) * (tracks * 10 * 256))
+        a, b = discs.AbsCat(b'SIDE0', 0, 0, tracks * 10, []).sectors()
+        s0[0:512] = a + b
+        s1 = bytearray(bytes([0x62]) * (tracks * 10 * 256))
+        first = tracks * 10 - 20
+        f = discs.AbsFile(0x24, b'EDGE', False, 0, 0, first, b'', length=20 * 256)
+        c2, d2 = discs.AbsCat(b'SIDE1', 0, 0, tracks * 10, [f]).sectors()
+        s1[0:512] = c2 + d2
+        img = bytearray()
+        for t in range(tracks):
+            img += s0[t * 2560:(t + 1) * 2560] + s1[t * 2560:(t + 1) * 2560]
+        img = bytes(img[:cutsec * 256])
+        for cmd in (['type', '--binary'], ['dump']):
+            cases.append(vlib.Case('tr%d-%d' % (tracks, cutsec), {'t.dsd': img}, ['--file', '@t.dsd', '--drive', '2'] + cmd + [b'$.EDGE'],
+                                   meta={'tag': 0x62, 'over': 1, 'len': 20 * 256, 'cmd': cmd, 'kind': 'dsd-truncated'}))
+        cases.append(vlib.Case('tr%d-%d' % (tracks, cutsec), {'t.dsd': img}, ['--file', '@t.dsd', '--drive', '2', 'extract-files', '@out'], dest='out',
+                               meta={'tag': 0x62, 'over': 1, 'len': 20 * 256, 'cmd': ['extract-files'], 'kind': 'dsd-truncated'}))
+        cases.append(vlib.Case('tr%d-%d' % (tracks, cutsec), {'t.dsd': img}, ['--file', '@t.dsd', '--drive', '2', 'extract-unused', '@out'], dest='out',
+                               meta={'tag': 0x62, 'over': 0, 'len': 0, 'cmd': ['extract-unused'], 'kind': 'dsd-truncated'}))
+        ctx.count('kind.dsd-truncated')
     vlib.run_cases(cases, impl['dfs'])
     for c in cases:
         common.compare_model(ctx, c, 'e2e-' + c.meta['cmd'][0])
@@ -126,6 +149,14 @@ def run(ctx):
         ctx.oracle_cases += 1
         ctx.case(c.real_argv, abs(m['over']) <= 2, sample={'argv': [a.decode('latin-1') for a in c.real_argv[2:]], 'overrun_sectors': m['over']})
         if common.crash_violation(ctx, c):
+            continue
+        if m['cmd'][0] == 'extract-unused':
+            # unused space of side 1: every byte written must come from side 1
+            data = b''.join(v for k, v in sorted(i['files'].items()))
+            foreign = [b for b in data if b != m['tag']]
+            if foreign:
+                ctx.violation('leak-%s' % m['kind'], 'extract-unused output %d byte(s) that are not on this surface (first foreign byte 0x%02X; exit %d)' % (len(foreign), foreign[0], i['exit']),
+                              common.replay_of(c))
             continue
         if m['cmd'][0] == 'extract-files':
             data = b''.join(v for k, v in sorted(i['files'].items()) if not k.endswith(b'.inf'))
